@@ -29,12 +29,12 @@ func init() {
 			"(D2) the wake-up channel is not of the losing shape 'capacity 0 + non-blocking send + receive performed after the mutex was released' (a send falling between the waiter's unlock and its receive is dropped); " +
 			"(D3) after every wake-up the waiter re-observes emptiness (Len, or a nil-tested Front/Back) before any removal; " +
 			"(D4) every insertion is followed on every path by a wake-up send, or preceded by one inside the same uninterrupted critical section; " +
-			"(D5) the blocking wait also listens to ctx.Done(), a wait ended by cancellation cannot re-enter the wait without testing ctx.Err(), and the exit taken on cancellation returns the zero item and false. " +
-			"PriorityQueue: (D6) Less is true for counter(i)<counter(j) and false for counter(i)>counter(j) (evaluated over the three orderings), Swap exchanges both elements, Push appends its argument, Pop returns and removes the last element; container/heap operations on the queue run under the write lock; Push/Pop/Swap are never called directly by module code (only through container/heap); Add pushes its argument through heap.Push on every path; the items handed out by Next/NextAll are results of heap.Pop; the backing slice is not written outside the heap.Interface methods and is read only under the lock. " +
+			"(D5) the blocking wait also listens to ctx.Done(), a wait ended by cancellation cannot re-enter the wait without testing ctx.Err(), the exit taken on cancellation returns the zero item and false, and an item is removed and handed out only after the context was tested since the last blocking point (function entry or the wait; ctx.Err() feeding a branch or a non-blocking ctx.Done() case), the cancelled side of that test removing nothing - so a wait whose context is already cancelled returns 'no item' even when items are pending. " +
+			"PriorityQueue: (D6) Less, interpreted concretely (integer arithmetic with wrap-around, conversions, comparisons, cmp.Compare) on 64 pairs of uint64 counters including values 2^63 and more apart, is true for every counter(i)<counter(j) and false for every counter(i)>counter(j) (a signed-difference comparison is reported as not a total order), Swap exchanges both elements, Push appends its argument, Pop returns and removes the last element; container/heap operations on the queue run under the write lock; Push/Pop/Swap are never called directly by module code (only through container/heap); Add pushes its argument through heap.Push on every path; the items handed out by Next/NextAll are results of heap.Pop; the backing slice is not written outside the heap.Interface methods and is read only under the lock. " +
 			"Not decided: the exhaustive interleaving exploration the property asks for (only the listed lost-wake-up, ordering and locking shapes are decided), fairness/liveness of the Go scheduler, behaviour with more than one consumer (a single wake-up token is enough for one consumer only), correctness of container/list and container/heap themselves, what the callers in store_message.go do with the items.",
 		Trusted:     []string{"golang.org/x/tools go/packages+go/ssa (v0.29.0)", "container/list, container/heap, sync.Mutex/RWMutex, channel and select semantics of the Go runtime", "lock identity by owner type + field (methods touch only their receiver's fields)"},
 		Assumptions: []string{"one consumer per SimpleQueue (as in MessageStore.processMessageLoop)", "queue fields are unexported, so the functions of package internal/queue are all the code that can touch them"},
-		Floors:      map[string]int{"D1": 10, "D2": 1, "D3": 1, "D4": 1, "D5": 3, "D6": 17},
+		Floors:      map[string]int{"D1": 10, "D2": 1, "D3": 1, "D4": 1, "D5": 4, "D6": 17},
 		Run:         runC15,
 	})
 }
@@ -1258,8 +1258,20 @@ func (s *c15Simple) cancelAt(site ssa.Instruction, direct bool, doneEdges []edge
 					cancelled = append(cancelled, ve.Reject...)
 				}
 			}
+			// select { case <-ctx.Done(): ...; default: } is a test of the context as well
+			if sel, ok := in.(*ssa.Select); ok && !sel.Blocking {
+				for i, st := range sel.States {
+					if st.Dir == types.RecvOnly && c15IsCtxCall(st.Chan, "Done") != nil {
+						if eds := c15SelectCaseEdges(sel, i); len(eds) > 0 {
+							tests[sel] = true
+							cancelled = append(cancelled, eds...)
+						}
+					}
+				}
+			}
 		}
 	}
+	s.cancelBeforeDelivery(site, tests, cancelled)
 	// search from the ways the wait ends by cancellation
 	from := func(target, stop map[ssa.Instruction]bool) ssa.Instruction {
 		if !direct {
@@ -1332,6 +1344,42 @@ func (s *c15Simple) cancelAt(site ssa.Instruction, direct bool, doneEdges []edge
 	} else {
 		c.ok("D5", cC, fn.Pos(), "the %d exit(s) taken after cancellation return the zero item and false", len(rets))
 	}
+}
+
+// cancelBeforeDelivery: D5 (d). In the function that loops around the wait, an item is handed
+// out only after the context was tested since the last blocking point (function entry or the
+// wait), and the cancelled side of such a test hands out nothing. Otherwise a wait whose
+// context is already cancelled keeps returning pending items.
+func (s *c15Simple) cancelBeforeDelivery(site ssa.Instruction, tests map[ssa.Instruction]bool, cancelled []edge) {
+	c := s.e.c
+	fn := site.Parent()
+	removals := s.removalTargets(fn, 0)
+	if obj := fn.Object(); len(removals) == 0 && (obj == nil || !obj.Exported()) {
+		return // helper that only parks: items are handed out by its callers
+	}
+	cD := fnName(fn) + "+context tested before an item is handed out"
+	if len(fn.Blocks) == 0 {
+		return
+	}
+	if hit := c15Search(fn.Blocks[0], 0, removals, tests, nil); hit != nil {
+		c.fail("D5", cD, posOf(hit), "from the function entry an item is removed and returned without any test of the context (ctx.Err(), or a non-blocking ctx.Done() case): a wait whose context is already cancelled returns (item, true) instead of 'no item' while items are pending")
+		return
+	}
+	if hit := c15After(site, removals, tests); hit != nil {
+		c.fail("D5", cD, posOf(hit), "after a wake-up an item is removed and returned without testing the context again: a consumer whose context was cancelled meanwhile is handed an item instead of 'no item'")
+		return
+	}
+	stop := map[ssa.Instruction]bool{site: true}
+	for k := range tests {
+		stop[k] = true
+	}
+	for _, ed := range cancelled {
+		if hit := c15Search(ed.To, 0, removals, stop, nil); hit != nil {
+			c.fail("D5", cD, posOf(hit), "the cancelled side of the context test still reaches the removal of an item: cancellation is observed but an item is handed out nevertheless")
+			return
+		}
+	}
+	c.ok("D5", cD, fn.Pos(), "every path from the entry and from a wake-up to the removal of an item passes a test of the context, whose cancelled side removes nothing")
 }
 
 // c15SelectCaseEdges: the CFG edges taken when sel completes with the case of index k.
@@ -1491,75 +1539,281 @@ func (p *c15Prio) counterOf(fn *ssa.Function, v ssa.Value) int {
 	return c15ParamIndex(fn, idx)
 }
 
-const (
-	c15LT = 1
-	c15EQ = 2
-	c15GT = 4
-)
+// c15Num: a concrete integer (or boolean) value of a fixed width.
+type c15Num struct {
+	bits   uint64
+	width  uint
+	signed bool
+}
 
-// relOf: the set of orderings of (counter(i), counter(j)) under which boolean v is true.
-func (p *c15Prio) relOf(fn *ssa.Function, v ssa.Value, depth int) (int, bool) {
-	if depth > 6 {
-		return 0, false
+func c15NumOf(t types.Type, bits uint64) (c15Num, bool) {
+	bt, ok := t.Underlying().(*types.Basic)
+	if !ok {
+		return c15Num{}, false
+	}
+	if bt.Info()&types.IsBoolean != 0 {
+		return c15Num{bits & 1, 1, false}, true
+	}
+	if bt.Info()&types.IsInteger == 0 {
+		return c15Num{}, false
+	}
+	sz := types.SizesFor("gc", "amd64").Sizeof(bt)
+	n := c15Num{width: uint(sz * 8), signed: bt.Info()&types.IsUnsigned == 0}
+	n.bits = bits
+	if n.width < 64 {
+		n.bits &= (uint64(1) << n.width) - 1
+	}
+	return n, true
+}
+
+// signed interpretation (sign-extended to 64 bits)
+func (n c15Num) int64() int64 {
+	if n.width < 64 && n.signed && n.bits&(uint64(1)<<(n.width-1)) != 0 {
+		return int64(n.bits | ^((uint64(1) << n.width) - 1))
+	}
+	return int64(n.bits)
+}
+
+func (n c15Num) less(m c15Num) bool {
+	if n.signed {
+		return n.int64() < m.int64()
+	}
+	return n.bits < m.bits
+}
+
+func c15Bool(b bool) c15Num {
+	if b {
+		return c15Num{1, 1, false}
+	}
+	return c15Num{0, 1, false}
+}
+
+// c15LessEval evaluates the body of Less for concrete counter values.
+type c15LessEval struct {
+	p      *c15Prio
+	fn     *ssa.Function
+	ci, cj uint64
+	env    map[ssa.Value]c15Num
+	why    string
+	at     ssa.Instruction
+}
+
+func (ev *c15LessEval) fail(in ssa.Value, why string) (c15Num, bool) {
+	if ev.why == "" {
+		ev.why = why
+		if i, ok := in.(ssa.Instruction); ok {
+			ev.at = i
+		}
+	}
+	return c15Num{}, false
+}
+
+func (ev *c15LessEval) val(v ssa.Value, depth int) (c15Num, bool) {
+	if n, ok := ev.env[v]; ok {
+		return n, true
+	}
+	if depth > 24 {
+		return ev.fail(v, "expression too deep")
 	}
 	switch x := v.(type) {
 	case *ssa.Const:
-		if b, ok := constBool(x); ok {
-			if b {
-				return 7, true
-			}
-			return 0, true
+		if x.Value == nil {
+			return ev.fail(v, "non-numeric constant")
 		}
+		switch x.Value.Kind() {
+		case constant.Bool:
+			return c15Bool(constant.BoolVal(x.Value)), true
+		case constant.Int:
+			if u, ok := constant.Uint64Val(x.Value); ok {
+				return c15NumOf(x.Type(), u)
+			}
+			if i, ok := constant.Int64Val(x.Value); ok {
+				return c15NumOf(x.Type(), uint64(i))
+			}
+		}
+		return ev.fail(v, "constant not modelled")
+	case *ssa.ChangeType:
+		return ev.val(x.X, depth+1)
+	case *ssa.Convert:
+		n, ok := ev.val(x.X, depth+1)
+		if !ok {
+			return n, false
+		}
+		bits := n.bits
+		if n.signed {
+			bits = uint64(n.int64())
+		}
+		if r, ok := c15NumOf(x.Type(), bits); ok && r.width > 1 && n.width > 1 {
+			return r, true
+		}
+		return ev.fail(v, "conversion to a non-integer type is not modelled")
 	case *ssa.UnOp:
-		if x.Op == token.NOT {
-			r, ok := p.relOf(fn, x.X, depth+1)
-			return 7 &^ r, ok
+		n, ok := ev.val(x.X, depth+1)
+		if !ok {
+			return n, false
 		}
-	case *ssa.BinOp:
-		a, b := p.counterOf(fn, x.X), p.counterOf(fn, x.Y)
-		if a < 1 || b < 1 {
-			return 0, false
-		}
-		var set int
 		switch x.Op {
-		case token.LSS:
-			set = c15LT
-		case token.LEQ:
-			set = c15LT | c15EQ
-		case token.GTR:
-			set = c15GT
-		case token.GEQ:
-			set = c15GT | c15EQ
+		case token.NOT:
+			return c15Bool(n.bits == 0), true
+		case token.SUB:
+			return c15NumOf(x.Type(), -n.bits)
+		case token.XOR:
+			return c15NumOf(x.Type(), ^n.bits)
+		}
+		return ev.fail(v, "unary operator "+x.Op.String()+" not modelled")
+	case *ssa.BinOp:
+		a, ok := ev.val(x.X, depth+1)
+		if !ok {
+			return a, false
+		}
+		b, ok := ev.val(x.Y, depth+1)
+		if !ok {
+			return b, false
+		}
+		switch x.Op {
 		case token.EQL:
-			set = c15EQ
+			return c15Bool(a.bits == b.bits), true
 		case token.NEQ:
-			set = c15LT | c15GT
-		default:
-			return 0, false
+			return c15Bool(a.bits != b.bits), true
+		case token.LSS:
+			return c15Bool(a.less(b)), true
+		case token.GTR:
+			return c15Bool(b.less(a)), true
+		case token.LEQ:
+			return c15Bool(!b.less(a)), true
+		case token.GEQ:
+			return c15Bool(!a.less(b)), true
+		case token.ADD:
+			return c15NumOf(x.Type(), a.bits+b.bits)
+		case token.SUB:
+			return c15NumOf(x.Type(), a.bits-b.bits)
+		case token.MUL:
+			return c15NumOf(x.Type(), a.bits*b.bits)
+		case token.AND:
+			return c15NumOf(x.Type(), a.bits&b.bits)
+		case token.OR:
+			return c15NumOf(x.Type(), a.bits|b.bits)
+		case token.XOR:
+			return c15NumOf(x.Type(), a.bits^b.bits)
+		case token.AND_NOT:
+			return c15NumOf(x.Type(), a.bits&^b.bits)
+		case token.SHL:
+			if b.bits >= 64 {
+				return c15NumOf(x.Type(), 0)
+			}
+			return c15NumOf(x.Type(), a.bits<<b.bits)
+		case token.SHR:
+			sh := b.bits
+			if sh > 63 {
+				sh = 63
+				if !a.signed {
+					return c15NumOf(x.Type(), 0)
+				}
+			}
+			if a.signed {
+				return c15NumOf(x.Type(), uint64(a.int64()>>sh))
+			}
+			return c15NumOf(x.Type(), a.bits>>sh)
 		}
-		switch {
-		case a == 1 && b == 2:
-			return set, true
-		case a == 2 && b == 1:
-			m := set & c15EQ
-			if set&c15LT != 0 {
-				m |= c15GT
-			}
-			if set&c15GT != 0 {
-				m |= c15LT
-			}
-			return m, true
-		default: // the same element on both sides: only '=' is possible
-			if set&c15EQ != 0 {
-				return 7, true
-			}
-			return 0, true
+		return ev.fail(v, "binary operator "+x.Op.String()+" not modelled")
+	case *ssa.Call:
+		switch ev.p.counterOf(ev.fn, x) {
+		case 1:
+			return c15NumOf(x.Type(), ev.ci)
+		case 2:
+			return c15NumOf(x.Type(), ev.cj)
 		}
+		cc := x.Common()
+		if k := calleeKey(cc); (k == "cmp.Compare" || k == "cmp.Less") && len(cc.Args) == 2 {
+			a, ok := ev.val(cc.Args[0], depth+1)
+			if !ok {
+				return a, false
+			}
+			b, ok := ev.val(cc.Args[1], depth+1)
+			if !ok {
+				return b, false
+			}
+			if k == "cmp.Less" {
+				return c15Bool(a.less(b)), true
+			}
+			r := uint64(0)
+			if a.less(b) {
+				r = ^uint64(0)
+			} else if b.less(a) {
+				r = 1
+			}
+			return c15NumOf(x.Type(), r)
+		}
+		return ev.fail(v, "call other than items[i].Counter() / items[j].Counter()")
 	}
-	return 0, false
+	return ev.fail(v, fmt.Sprintf("%T not modelled", v))
 }
 
-// D6 Less: evaluate the function for the three orderings.
+// run interprets the function; returns the boolean result.
+func (ev *c15LessEval) run() (bool, bool) {
+	ev.env = map[ssa.Value]c15Num{}
+	b, prev := ev.fn.Blocks[0], (*ssa.BasicBlock)(nil)
+	for steps := 0; steps < 64; steps++ {
+		// phis of the block, from the edge taken
+		if prev != nil {
+			idx := -1
+			for i, pr := range b.Preds {
+				if pr == prev {
+					idx = i
+				}
+			}
+			vals := map[ssa.Value]c15Num{}
+			for _, in := range b.Instrs {
+				ph, ok := in.(*ssa.Phi)
+				if !ok {
+					break
+				}
+				if idx < 0 {
+					return false, false
+				}
+				n, ok := ev.val(ph.Edges[idx], 0)
+				if !ok {
+					return false, false
+				}
+				vals[ph] = n
+			}
+			for k, n := range vals {
+				ev.env[k] = n
+			}
+		}
+		last := b.Instrs[len(b.Instrs)-1]
+		switch t := last.(type) {
+		case *ssa.Return:
+			if len(t.Results) != 1 {
+				return false, false
+			}
+			n, ok := ev.val(t.Results[0], 0)
+			return n.bits != 0, ok && n.width == 1
+		case *ssa.If:
+			n, ok := ev.val(t.Cond, 0)
+			if !ok {
+				return false, false
+			}
+			prev = b
+			if n.bits != 0 {
+				b = b.Succs[0]
+			} else {
+				b = b.Succs[1]
+			}
+		case *ssa.Jump:
+			prev, b = b, b.Succs[0]
+		default:
+			ev.fail(nil, "control flow not modelled")
+			ev.at = last
+			return false, false
+		}
+	}
+	ev.fail(nil, "evaluation did not terminate")
+	return false, false
+}
+
+// D6 Less: evaluate the function on a small domain of counter pairs that includes values far
+// apart (counters are uint64 taken from a remote peer's headers).
 func (p *c15Prio) ruleLess() {
 	c := p.e.c
 	fn := p.heapM["Less"]
@@ -1568,58 +1822,64 @@ func (p *c15Prio) ruleLess() {
 		c.undecided("D6", construct, fn.Pos(), "unexpected signature")
 		return
 	}
-	result := map[int]bool{}
-	for _, sc := range []int{c15LT, c15EQ, c15GT} {
-		b, prev := fn.Blocks[0], (*ssa.BasicBlock)(nil)
-		decided := false
-		for steps := 0; steps < 64 && !decided; steps++ {
-			last := b.Instrs[len(b.Instrs)-1]
-			switch t := last.(type) {
-			case *ssa.Return:
-				v := t.Results[0]
-				if ph, ok := v.(*ssa.Phi); ok && ph.Block() == b && prev != nil {
-					for i, pr := range b.Preds {
-						if pr == prev {
-							v = ph.Edges[i]
-						}
-					}
+	dom := []uint64{0, 1, 2, 1<<63 - 1, 1 << 63, 1<<63 + 1, 1<<64 - 2, 1<<64 - 1}
+	var wrongLT, wrongGT, nLT, nGT, nearBad int
+	first := ""
+	eqTrue := false
+	for _, a := range dom {
+		for _, b := range dom {
+			ev := &c15LessEval{p: p, fn: fn, ci: a, cj: b}
+			res, ok := ev.run()
+			if !ok {
+				at := fn.Pos()
+				if ev.at != nil {
+					at = posOf(ev.at)
 				}
-				r, ok := p.relOf(fn, v, 0)
-				if !ok {
-					c.undecided("D6", construct, posOf(t), "the returned comparison is not a comparison of items[i].Counter() with items[j].Counter() that the rule can evaluate")
-					return
+				why := ev.why
+				if why == "" {
+					why = "result is not a boolean the rule can evaluate"
 				}
-				result[sc] = r&sc != 0
-				decided = true
-			case *ssa.If:
-				r, ok := p.relOf(fn, t.Cond, 0)
-				if !ok {
-					c.undecided("D6", construct, posOf(t), "a branch condition is not a comparison of the two counters")
-					return
-				}
-				prev = b
-				if r&sc != 0 {
-					b = b.Succs[0]
-				} else {
-					b = b.Succs[1]
-				}
-			case *ssa.Jump:
-				prev, b = b, b.Succs[0]
-			default:
-				c.undecided("D6", construct, posOf(last), "control flow not modelled")
+				c.undecided("D6", construct, at, "Less could not be evaluated on concrete counters: %s", why)
 				return
 			}
-		}
-		if !decided {
-			c.undecided("D6", construct, fn.Pos(), "evaluation did not terminate")
-			return
+			bad := false
+			switch {
+			case a < b:
+				nLT++
+				if !res {
+					wrongLT++
+					bad = true
+				}
+			case a > b:
+				nGT++
+				if res {
+					wrongGT++
+					bad = true
+				}
+			default:
+				eqTrue = eqTrue || res
+			}
+			if bad {
+				d := a - b
+				if a < b {
+					d = b - a
+				}
+				if d < 1<<62 {
+					nearBad++
+				}
+				if first == "" {
+					first = fmt.Sprintf("Less(i,j) with counter(i)=%d, counter(j)=%d is %v", a, b, res)
+				}
+			}
 		}
 	}
-	table := fmt.Sprintf("{<: %v, =: %v, >: %v}", result[c15LT], result[c15EQ], result[c15GT])
-	if result[c15LT] && !result[c15GT] {
-		c.ok("D6", construct, fn.Pos(), "Less(i,j) over the orderings of the two counters: %s", table)
-	} else {
-		c.fail("D6", construct, fn.Pos(), "Less(i,j) over the orderings of counter(i) vs counter(j) is %s; a min-heap by counter needs {<: true, >: false}: Next would not yield the pending item with the smallest counter", table)
+	switch {
+	case wrongLT == 0 && wrongGT == 0:
+		c.ok("D6", construct, fn.Pos(), "Less evaluated on %d pairs of counters (including values 2^63 and more apart): true for every counter(i)<counter(j), false for every counter(i)>counter(j) (equal counters: %v)", len(dom)*len(dom), eqTrue)
+	case nearBad == 0:
+		c.fail("D6", construct, fn.Pos(), "Less agrees with '<' on counters that are close but not on counters 2^63 or more apart (%d of %d ordered pairs wrong, e.g. %s): the comparison is not a total order on uint64 counters (a signed-difference/wrapping comparison), so with a far-away counter from a peer the heap no longer yields the smallest counter", wrongLT+wrongGT, nLT+nGT, first)
+	default:
+		c.fail("D6", construct, fn.Pos(), "Less is not 'counter(i) < counter(j)': wrong on %d of %d pairs with counter(i)<counter(j) and %d of %d pairs with counter(i)>counter(j) (e.g. %s); a min-heap by counter needs true for '<' and false for '>': Next would not yield the pending item with the smallest counter", wrongLT, nLT, wrongGT, nGT, first)
 	}
 }
 
